@@ -32,7 +32,8 @@ def describe(tier):
 
 def shards(tier, seed):
     out = [("scalars", omp) for omp in (0, 2)]
-    out += [("history", omp, first) for omp in (0, 2) for first in range(9)]
+    out += [("history", omp, first, "np") for omp in (0, 2) for first in range(9)]
+    out += [("history", 0, first, "ba") for first in range(9)]  # objects living in a BufferByteArray
     return out[seed % len(out):] + out[: seed % len(out)]
 
 
@@ -253,9 +254,9 @@ NEW = [("S", True), ("S", False), ("D", True), ("D", False), ("A", False), ("U",
 
 
 class World:
-    def __init__(self, omp):
+    def __init__(self, omp, kind="np"):
         self.ctx = context(omp)
-        self.buf = place.traced("np", 8, context=self.ctx, default_alignment=8)
+        self.buf = place.traced(kind, 8, context=self.ctx, default_alignment=8)
         self.buf.allocate(3, align=False)  # nothing starts at offset 0
         self.objs = []  # [kind, handle, model, live]
         self.n = 0
@@ -352,8 +353,8 @@ def touch_world(w):
                 pass  # judged (and reported) by check_world on the state where it happens
 
 
-def build_world(omp, hist):
-    w = World(omp)
+def build_world(omp, hist, kind="np"):
+    w = World(omp, kind)
     touch_world(w)
     for ev in hist:
         w.apply(ev)
@@ -361,8 +362,11 @@ def build_world(omp, hist):
     return w
 
 
-def run_history(omp, first, depth, res, seed):
+def run_history(omp, first, depth, res, seed, kind="np"):
     v = V(res, omp)
+    def build_world(o, h, _bw=globals()["build_world"]):
+        return _bw(o, h, kind)
+
     w0 = build_world(omp, [])
     ev0 = w0.events()
     if first >= len(ev0):
@@ -402,7 +406,7 @@ def run_shard(shard, tier, seed):
         run_scalars(shard[1], res, seed)
         res.sample(dict(part="scalars", omp=shard[1], kernels=len(source_and_kernels()[1])))
     else:
-        run_history(shard[1], shard[2], 4 if tier == "quick" else 5, res, seed)
+        run_history(shard[1], shard[2], 4 if tier == "quick" else 5, res, seed, shard[3])
     res.cases = 1
     res.nontrivial = res.states
     return res
